@@ -302,7 +302,13 @@ def arity_problems(A, funcs):
                         A.repo.resolve_expr_static(f.module, c.func.value), ClassInfo)
                         and callee.name != '__init__')
                 if callee.cls is not None and callee.name == '__init__':
-                    bound_self = True
+                    # Cls(...) and super().__init__(...) bind self;
+                    # Base.__init__(self, ...) passes it explicitly
+                    bound_self = not (
+                        isinstance(c.func, ast.Attribute)
+                        and c.func.attr == '__init__'
+                        and isinstance(A.repo.resolve_expr_static(
+                            f.module, c.func.value), ClassInfo))
                 if bound_self and params:
                     params = params[1:]
                 injected = callee.injected_interface() is not None
